@@ -556,7 +556,8 @@ func genUpd(t *rapid.T) UpdCase {
 }
 
 func TestC14(t *testing.T) {
-	pbt.Run(t, pbt.Spec[UpdCase]{Prop: "C14", Test: "TestC14", Engine: "lifecycle", Gen: genUpd, Check: checkUpd})
+	// UpdateProject walks Go maps: the order of removals and updates differs from run to run
+	pbt.Run(t, pbt.Spec[UpdCase]{Prop: "C14", Test: "TestC14", Engine: "lifecycle", Gen: genUpd, Check: checkUpd, ReplayRuns: 12})
 }
 
 // parkedNow summarises where the goroutines of the system under test are parked right now.
